@@ -87,7 +87,8 @@ Qed.
 
 (* ---------- inversion of extract / interpret ---------- *)
 Definition prod_h (x : rep_in) : list Q :=
-  lsub (lsub (r_crops_prod x) (create_food_kcals (r_n x) (r_km x) (v_cr_f x))) (create_food_kcals (r_n x) (r_km x) (v_cr_b x)).
+  crop_production_for_humans true (r_crops_prod x) (create_food_kcals (r_n x) (r_km x) (v_cr_f x))
+                             (create_food_kcals (r_n x) (r_km x) (v_cr_b x)).
 
 Lemma extract_inv x e : extract x = Ok e ->
   e_sf e = extract_generic_kcals (r_n x) (r_km x) (v_sf_h x) 1 /\
@@ -103,7 +104,7 @@ Lemma extract_inv x e : extract x = Ok e ->
    then (e_imm e, e_ns e) = split_series (r_n x) (map (var_at (v_cr_h x)) (seq 0 (r_n x))) (prod_h x) (1 / r_km x)
    else e_imm e = repeat 0 (varlen (v_cr_h x)) /\ e_ns e = repeat 0 (varlen (v_cr_h x))).
 Proof.
-  unfold extract. fold (prod_h x).
+  unfold extract, extract_gen. fold (prod_h x).
   destruct (negb (same_len _ _ && same_len _ _)); [discriminate|].
   destruct (is_modelled (v_cr_h x)) eqn:M; cbn [negb andb].
   - destruct (split_series _ _ _ _) as [imm ns] eqn:S.
@@ -219,7 +220,7 @@ Qed.
 (* ---------- report: inversion ---------- *)
 Lemma report_inv x e i : report x = Ok (e, i) -> extract x = Ok e /\ interpret (r_conv x) e = Ok i.
 Proof.
-  unfold report. destruct (extract x) as [e'|]; [|discriminate].
+  unfold report, report_gen, extract. destruct (extract_gen true x) as [e'|]; [|discriminate].
   destruct (interpret _ e') as [i'|] eqn:HI; [|discriminate]. intros [= <- <-]; split; [reflexivity|exact HI].
 Qed.
 
@@ -726,9 +727,9 @@ Proof. induction k; cbn; [reflexivity|]. now rewrite IHk. Qed.
 
 Lemma extract_never_assert x : extract x <> Rejected AssertRejected.
 Proof.
-  unfold extract.
+  unfold extract, extract_gen.
   destruct (negb (same_len _ _ && same_len _ _)); [discriminate|].
-  set (ph := lsub (lsub (r_crops_prod x) (create_food_kcals (r_n x) (r_km x) (v_cr_f x))) (create_food_kcals (r_n x) (r_km x) (v_cr_b x))).
+  set (ph := crop_production_for_humans true (r_crops_prod x) (create_food_kcals (r_n x) (r_km x) (v_cr_f x)) (create_food_kcals (r_n x) (r_km x) (v_cr_b x))).
   destruct (v_cr_h x) as [k|vals]; cbn [is_modelled negb andb varlen].
   - destruct (Qeq_bool (lsum ph) 0); [|discriminate].
     unfold create_food_kcals, to_monthly_list, sources_add_up, growing_production_ok, all_b, lsub, ladd.
@@ -820,4 +821,57 @@ Proof.
   { rewrite Forall_forall in *. intros r Hr. apply F. apply (rows_feed_biofuel_in_build i ToHumans m Hm r Hr). }
   apply (sat_rows_feed_biofuel_humans i a m R) in S. destruct S as [S1 S2].
   rewrite A, B. split; assumption.
+Qed.
+
+(* ---------- after the clamp fix: the part of the crops eaten immediately is never negative ---------- *)
+Lemma Qmax0_nonneg v : 0 <= Qmax0 v.
+Proof. unfold Qmax0. destruct (Qle_bool 0 v) eqn:E; [now apply Qle_bool_iff|lra]. Qed.
+
+Lemma prod_h_nonneg x m : 0 <= nthq (prod_h x) m.
+Proof.
+  unfold prod_h, crop_production_for_humans, nthq.
+  set (d := lsub _ _). clearbody d. revert m; induction d; intros [|m]; cbn; try lra; [apply Qmax0_nonneg|apply IHd].
+Qed.
+
+Lemma split_month_imm_nonneg produced eaten k : 0 <= produced -> 0 <= eaten -> 0 <= k ->
+  0 <= fst (split_month produced eaten k).
+Proof.
+  intros P E K. unfold split_month. destruct (Qle_bool produced eaten); cbn; apply Qmult_le_0_compat; assumption.
+Qed.
+
+Lemma extract_imm_nonneg x e : extract x = Ok e -> 0 < r_km x -> forall m, (m < r_n x)%nat ->
+  0 <= var_at (v_cr_h x) m -> 0 <= nthq (e_imm e) m.
+Proof.
+  intros HE K m Hm V. destruct (extract_inv _ _ HE) as (_ & _ & _ & _ & _ & _ & _ & _ & _ & S).
+  destruct (is_modelled (v_cr_h x)) eqn:M.
+  - unfold split_series in S. injection S as -> _. unfold nthq.
+    rewrite !map_map. rewrite !nth_map_seq by exact Hm. cbn beta. cbn [plus]. rewrite ?nth_map_seq by exact Hm. cbn [plus].
+    apply split_month_imm_nonneg; [apply prod_h_nonneg|exact V|].
+    apply Qlt_le_weak. apply Qdiv_pos; [reflexivity|exact K].
+  - destruct S as [-> _]. unfold nthq. rewrite nth_repeat0. lra.
+Qed.
+
+(* in the reporting units: percent and the saved column *)
+Lemma report_imm_nonneg x e i : report x = Ok (e, i) -> positive_settings (r_conv x) -> 0 < r_km x ->
+  forall m, (m < r_n x)%nat -> 0 <= var_at (v_cr_h x) m ->
+  0 <= nthq (e_imm e) m /\ 0 <= nthq (p_imm i) m /\ 0 <= nthq (k_imm i) m.
+Proof.
+  intros R P K m Hm V. destruct (report_inv _ _ _ R) as [HE HI].
+  pose proof (extract_imm_nonneg _ _ HE K m Hm V) as A.
+  destruct (interpret_inv _ _ _ HI) as
+    (_ & _ & _ & _ & _ & _ & _ & _ & _ & I10 & _ & _ & _ & _ & _ & _ & _ & _ & _ &
+     _ & _ & _ & _ & _ & _ & _ & K8 & _).
+  pose proof (m_bf_pct_pos _ P) as PP. pose proof (m_bf_ke_pos _ P) as PK.
+  split; [exact A|]. rewrite I10, K8, !nthq_lscale.
+  split; apply Qmult_le_0_compat; lra.
+Qed.
+
+(* for the allocation of the LP: every feasible assignment *)
+Lemma report_lp_imm_nonneg i c a e ii : lp_settings_ok i c -> nonneg a ->
+  report (report_in i c a) = Ok (e, ii) -> forall m, (m < NM i)%nat ->
+  0 <= nthq (e_imm e) m /\ 0 <= nthq (p_imm ii) m /\ 0 <= nthq (k_imm ii) m.
+Proof.
+  intros (P & K & _) NN R m Hm.
+  apply (report_imm_nonneg (report_in i c a) e ii R P); [cbn; rewrite K; apply km_pos; exact P|exact Hm|].
+  cbn [report_in v_cr_h]. rewrite var_at_vars_of by exact Hm. unfold bsel. destruct (add_cr i); [apply NN|lra].
 Qed.
